@@ -117,6 +117,12 @@ func c09Mutate(t *rapid.T, g *vocab.Gen, y reflect.Value, f vocab.Field) string 
 			seen[e.Ref] = true
 		}
 		i := rapid.IntRange(0, len(n)-1).Draw(t, "nlentry")
+		if rapid.IntRange(0, 2).Draw(t, "case-only") == 0 {
+			if flipped, ok := c09FlipCase(n[i].Value); ok {
+				n[i].Value = flipped
+				return "text-case"
+			}
+		}
 		n[i].Value = append(append(ap.Content{}, n[i].Value...), " (changed)"...)
 		return "text"
 	case vocab.KItem:
@@ -169,6 +175,22 @@ func c09Mutate(t *rapid.T, g *vocab.Gen, y reflect.Value, f vocab.Field) string 
 		return "duration"
 	}
 	return ""
+}
+
+// c09FlipCase changes the letter case of the first ASCII letter of a text.
+func c09FlipCase(c ap.Content) (ap.Content, bool) {
+	out := append(ap.Content{}, c...)
+	for i, b := range out {
+		switch {
+		case b >= 'a' && b <= 'z':
+			out[i] = b - 32
+			return out, true
+		case b >= 'A' && b <= 'Z':
+			out[i] = b + 32
+			return out, true
+		}
+	}
+	return out, false
 }
 
 type c09Variant struct {
@@ -242,6 +264,15 @@ func c09Variants(x ap.Item, f vocab.Field) (out []c09Variant) {
 				n := fv.Interface().(ap.NaturalLanguageValues)
 				n[i].Value = append(append(ap.Content{}, n[i].Value...), " (changed)"...)
 				return true
+			})
+			with(fmt.Sprintf("text-case #%d", i), func(fv reflect.Value) bool {
+				// the same text in another letter case is another text
+				n := fv.Interface().(ap.NaturalLanguageValues)
+				flipped, ok := c09FlipCase(n[i].Value)
+				if ok {
+					n[i].Value = flipped
+				}
+				return ok
 			})
 			with(fmt.Sprintf("tag #%d", i), func(fv reflect.Value) bool {
 				n := fv.Interface().(ap.NaturalLanguageValues)
